@@ -63,3 +63,8 @@ def _c03_empty_gap(v):
 def _c08_mirror(v):
     m = v["mech"]
     return v["oracle"] == "mirror-roundtrip" and m.get("at_end_of_adjacent_pure_deletion") is True and m.get("assoc") == 1
+
+
+@predicate("C06-dead-end-behind-generatable-loop")
+def _c06_dead_end(v):
+    return v["oracle"] == "accepted-dead-end" and v["mech"].get("immediate_edge_check_passes") is True
